@@ -534,7 +534,9 @@ def malformed_files(ctx, tg, tga, work, env):
                        ("z_junk.txt", "hello world\nfoo bar baz\n1 2\n"), ("z_dup.txt", "0 1 1\n0 2 2\n1 3 3\n1 4 4\n"),
                        ("z_partial.txt", "0 1.0 0.0\n1 2.0\n"), ("z_neg.txt", "-1 1e40 nan\n-2 inf -inf\n")]:
         p = mk(name, text)
-        for extra in ([], ["--BunchCurrent", "1e-3", "0", "1e-3"]):
+        # the file on top of the CSR impedance, with several buckets, and as the ONLY impedance source (-G 0: the
+        # factory result is then whatever it makes of the file alone - shorter or longer than the frequency grid)
+        for extra in ([], ["--BunchCurrent", "1e-3", "0", "1e-3"], ["-G", "0"], ["-G", "0", "--BunchCurrent", "1e-3", "2e-3"]):
             jobs.append((dict(kind="program", file=name, contents=text[:200], args=base + extra + ["-Z", p]), base + extra + ["-Z", p], {}))
     for name, text in [("t_edge.txt", "6 6\n-6 -6\n6 -6\n0 0\n"), ("t_out.txt", "100 100\n-100 3\n1e30 -1e30\n"), ("t_empty.txt", ""),
                        ("t_junk.txt", "a b\n1\n"), ("t_nan.txt", "nan nan\ninf -inf\n"), ("t_odd.txt", "1 2 3\n")]:
@@ -547,6 +549,11 @@ def malformed_files(ctx, tg, tga, work, env):
                        ("s_below.txt", "-6.4 0.3\n0.3 -6.4\n-6.1 -6.1\n0 0\n-7 5.9\n"), ("s_left1.txt", "-6.3 0\n")]:
         p = mk(name, text)
         jobs.append((dict(kind="program", file=name, contents=text[:200], args=base + ["-i", p]), base + ["-i", p], {}))
+        if name in ("s_one.txt", "s_below.txt", "s_grid.txt"):
+            # a start file always gives a single-bunch phase space, while main() still hands one bucket per configured
+            # current to the field objects
+            a = base + ["--BunchCurrent", "1e-3", "0", "2e-3", "-i", p]
+            jobs.append((dict(kind="program", file=name, contents=text[:200], args=a), a, {}))
     # start files in HDF5: produced by the program itself at other grid sizes
     for sz in (32, 16, 48):
         p = os.path.join(work, "start%d.h5" % sz)
@@ -556,6 +563,9 @@ def malformed_files(ctx, tg, tga, work, env):
             pred = {}
             a = base + ["-i", p, "-o", os.path.join(work, "cont%d.h5" % sz)]
             jobs.append((dict(kind="program", file="start%d.h5 (a results file of GridSize %d used with --GridSize 32)" % (sz, sz), args=a, mismatch=(sz != 32)), a, pred))
+            if sz == 32:
+                a = base + ["--BunchCurrent", "1e-3", "2e-3", "-i", p, "-o", os.path.join(work, "cont%d-2.h5" % sz)]
+                jobs.append((dict(kind="program", file="start%d.h5 (single-bunch results file continued with two configured currents)" % sz, args=a, mismatch=False), a, pred))
     p = os.path.join(work, "trunc.h5")
     if os.path.exists(os.path.join(work, "start32.h5")):
         with open(os.path.join(work, "start32.h5"), "rb") as f:
